@@ -83,10 +83,15 @@ class Gen:
                 vals.append(self.value(ind, p))
         self.last_vals[acc] = list(vals)
         s, t = self.fresh("s"), self.fresh("t")
-        args = ", ".join(f'"{f}" = {v} : i32' for f, v in zip(fs, vals))
+        pairs = list(zip(fs, vals))
+        if self.rng.random() < 0.3:
+            self.rng.shuffle(pairs)          # fields are named: the order in which a setup lists them is free
+        args = ", ".join(f'"{f}" = {v} : i32' for f, v in pairs)
         self.emit(ind, f'{s} = accfg.setup "{acc}" to ({args}) : !accfg.state<"{acc}">')
         if self.acc_specs:
-            ln = self.acc_specs[acc]["launch"]
+            ln = list(self.acc_specs[acc]["launch"])
+            if self.rng.random() < 0.3:
+                self.rng.shuffle(ln)         # launch values are named as well
             lvs = [self.rng.choice(pool) for _ in ln]
             names = ", ".join(f'"{x}"' for x in ln)
             tys = ", ".join(["i32"] * len(ln) + [f'!accfg.state<"{acc}">'])
